@@ -438,7 +438,44 @@ func checkC14(c *runCtx) {
 			}
 		}
 	}
-	c.sample(map[string]any{"part": "tcpPacketConn round trip", "streams": len(rtStreams), "answers": "all chunkings", "mtu": "8191/8192-byte packets with chunk sizes 1,2,3,1000,8192,unbounded"})
+	// hostile streams through the user: a frame larger than the receive buffer (whose body looks like well-formed
+	// frames), truncated frames, garbage. Exactly the packets before the offending frame are delivered, then the stream is closed.
+	evil := c14frame([]byte("EVIL"), []byte("MORE"))
+	for _, over := range []int{receiveMTU + 1, receiveMTU + 2, 30000, 65535} {
+		for _, lead := range [][]byte{nil, c14frame(c14payload(3, 9))} {
+			stream := append(append([]byte{}, lead...), byte(over>>8), byte(over))
+			stream = append(stream, evil...)
+			stream = append(stream, c14payload(over, 1)...)
+			for _, chunk := range []int{1, 2, 5, 1 << 20} {
+				ref := c14reference(stream, receiveMTU)
+				problem := c14roundTrip(stream, ref.packets, func(req, rem int) (int, error) {
+					if chunk < req {
+						return chunk, nil
+					}
+
+					return req, nil
+				})
+				evals++
+				nontrivial++
+				if problem != "" {
+					report("tcpPacketConn hostile stream", problem, map[string]any{"oversized_frame": over, "leading_frames": len(lead) > 0, "chunk": chunk}, "")
+				}
+			}
+		}
+	}
+	for _, stream := range [][]byte{{0x00}, {0x00, 0x05, 'a', 'b'}, append(c14frame([]byte("ok")), 0x00, 0x09, 'x'), {0xff, 0xff}, {0x20, 0x01, 0x00, 0x02, 'h', 'i'}} {
+		ref := c14reference(stream, receiveMTU)
+		n, _ := exploreChoices(-1, 0, func(ch *chooser) {
+			problem := c14roundTrip(stream, ref.packets, func(req, rem int) (int, error) { return req - ch.choose(req), nil })
+			nontrivial++
+			if problem != "" {
+				report("tcpPacketConn hostile stream", problem, map[string]any{"stream": fmt.Sprintf("%x", stream), "choices": ch.trace}, "")
+			}
+		})
+		evals += n
+	}
+	c.sample(map[string]any{"part": "tcpPacketConn round trip", "streams": len(rtStreams), "answers": "all chunkings", "mtu": "8191/8192-byte packets with chunk sizes 1,2,3,1000,8192,unbounded",
+		"hostile": "frames of 8193, 8194, 30000, 65535 bytes whose body is well-formed frames, with and without a leading valid frame; truncated and garbage streams in all chunkings"})
 
 	c.set("evaluations", evals)
 	c.set("distinct_nontrivial", nontrivial)
